@@ -73,7 +73,8 @@ theorem single_via_count {c : Config α} {g : List α}
     simp only [List.length_take]
     omega
 
-/-- **the algorithm ends**: when the reverse search fails there is no loop at all (`iterations` is
+/-- **the algorithm ends**: when the reverse search fails (other than by a limit, which fails the
+query) there is no loop at all (`iterations` is
 the forward search's count); otherwise the loop is structurally recursive on the replayed pops, and
 every turn — a dropped candidate included — removes one entry of the intersection queue:
 `iterations` is the two searches' count plus at most one turn per intersection entry, of which
@@ -83,7 +84,8 @@ theorem single_via_terminates {c : Config α} {g : List α}
     {fs rs pops : List Nat} {r : AlgResult α}
     (h : singleVia c g sim term source target k fs rs pops = .ok r) :
     ∃ fres, runVertexOriented c.fwd.inst source (some target) fs = .ok fres ∧
-      (((∃ e, runVertexOriented (c.rev g).inst target (some source) rs = .error e) ∧
+      (((∃ e, runVertexOriented (c.rev g).inst target (some source) rs = .error e ∧
+            e.stopsQuery = false) ∧
           r.iterations = fres.final.iters) ∨
        ∃ rres turns,
         runVertexOriented (c.rev g).inst target (some source) rs = .ok rres ∧
@@ -390,11 +392,11 @@ theorem accept_all_at_least_as_many {c : Config α} {g : List α}
   obtain ⟨fres', tsp', h1', htsp', hcT⟩ := singleVia_ok hT
   rw [h1] at h1'; cases h1'
   rw [htsp] at htsp'; cases htsp'
-  rcases hcA with ⟨⟨e, he⟩, rfl⟩ | ⟨rres, solA, itA, h2, hloopA, rfl⟩
+  rcases hcA with ⟨⟨e, he, _⟩, rfl⟩ | ⟨rres, solA, itA, h2, hloopA, rfl⟩
   · rcases hcT with ⟨_, rfl⟩ | ⟨rres', _, _, h2', _, _⟩
     · exact le_refl _
     · rw [he] at h2'; cases h2'
-  · rcases hcT with ⟨⟨e, he⟩, _⟩ | ⟨rres', solT, itT, h2', hloopT, rfl⟩
+  · rcases hcT with ⟨⟨e, he, _⟩, _⟩ | ⟨rres', solT, itT, h2', hloopT, rfl⟩
     · rw [he] at h2; cases h2
     · rw [h2] at h2'; cases h2'
       exact svLoop_acceptAll_ge _ _ _ _ _ _ _ _ (covered_init sim tsp) (le_refl _) hloopA hloopT
@@ -415,49 +417,67 @@ theorem accept_all_at_least_as_many_any_order {c : Config α} {g : List α}
   obtain ⟨fres', tsp', h1', htsp', hcT⟩ := singleVia_ok hT
   rw [h1] at h1'; cases h1'
   rw [htsp] at htsp'; cases htsp'
-  rcases hcA with ⟨⟨e, he⟩, rfl⟩ | ⟨rres, solA, itA, h2, hloopA, rfl⟩
+  rcases hcA with ⟨⟨e, he, _⟩, rfl⟩ | ⟨rres, solA, itA, h2, hloopA, rfl⟩
   · rcases hcT with ⟨_, rfl⟩ | ⟨rres', _, _, h2', _, _⟩
     · exact le_refl _
     · rw [he] at h2'; cases h2'
-  · rcases hcT with ⟨⟨e, he⟩, _⟩ | ⟨rres', solT, itT, h2', hloopT, rfl⟩
+  · rcases hcT with ⟨⟨e, he, _⟩, _⟩ | ⟨rres', solT, itT, h2', hloopT, rfl⟩
     · rw [he] at h2; cases h2
     · rw [h2] at h2'; cases h2'
       exact svLoop_acceptAll_ge_any_order hloopA hloopT
 
 /-! ## which failures propagate -/
 
-/-- (after the repairs `ksp/single-via-reverse-search-failed` and
-`ksp/single-via-alternative-failed`) with consistent adjacency and distinct origin and destination
+/-- (after the repairs `ksp/single-via-reverse-search-failed`, `ksp/single-via-alternative-failed`
+and the C10 repair 7780888) with consistent adjacency and distinct origin and destination
 single-via fails only with **the forward search's error** — the query is then not answerable by the
-underlying search either — or with an error of the similarity function (or the replay is not one
-the queue could have produced).  A failed reverse search yields the shortest route alone, a failed
-re-traversal drops that candidate; backtracking, the tree-count checks, the loop test and the
-frontier validation never fail. -/
+underlying search either —, with **the reverse search stopped by a limit of the termination model**
+(C10: a limit hit by any sub-search is the explicit `terminated` error, never a shortened answer;
+the only other member of `stopsQuery` is a Rust panic), or with an error of the similarity function
+(or the replay is not one the queue could have produced).  Any other failure of the reverse search
+yields the shortest route alone, a failed re-traversal drops that candidate; backtracking, the
+tree-count checks, the loop test and the frontier validation never fail. -/
 theorem single_via_failures {c : Config α} {g : List α} (hf : c.fwd.AdjConsistent)
     (hr : (c.rev g).AdjConsistent) {sim : List Nat → List Nat → Except ErrKind Bool}
     {term : KspTerm} {source target k : Nat} (hts : target ≠ source) {fs rs pops : List Nat}
     {e : ErrKind} (h : singleVia c g sim term source target k fs rs pops = .error e) :
     runVertexOriented c.fwd.inst source (some target) fs = .error e ∨
+    (runVertexOriented (c.rev g).inst target (some source) rs = .error e ∧ e.stopsQuery = true) ∨
     e = .scheduleExhausted ∨ e = .badSchedule ∨ (∃ a b, sim a b = .error e) :=
   singleVia_error hf hr hts h
 
+/-- conversely **a reverse search stopped by a limit always fails the query with that error**
+(the strict reading of C10 for the sub-searches of single-via) -/
+theorem single_via_reverse_limit_propagates {c : Config α} {g : List α}
+    {sim : List Nat → List Nat → Except ErrKind Bool} {term : KspTerm} {source target k : Nat}
+    {fs rs pops : List Nat} {fres : SearchResult α} {ks : List TermKind}
+    (hfwd : runVertexOriented c.fwd.inst source (some target) fs = .ok fres)
+    (hrev : runVertexOriented (c.rev g).inst target (some source) rs = .error (.terminated ks)) :
+    singleVia c g sim term source target k fs rs pops = .error (.terminated ks) := by
+  unfold singleVia
+  simp only [hfwd, hrev, ErrKind.stopsQuery, if_true]
+
 /-- hence **an answerable query is never turned into an error** by a similarity function that does
 not itself fail (`AcceptAll` and the cosine variants on routes of known edges): whenever the
-underlying search answers the query, so does single-via, on every accepted replay -/
+underlying search answers the query and the reverse search is not stopped by a limit (whatever else
+happens to it), so does single-via, on every accepted replay -/
 theorem single_via_answers_answerable {c : Config α} {g : List α} (hf : c.fwd.AdjConsistent)
     (hr : (c.rev g).AdjConsistent) {sim : List Nat → List Nat → Except ErrKind Bool}
     (hsim : ∀ a b, ∃ x, sim a b = .ok x)
     {term : KspTerm} {source target k : Nat} (hts : target ≠ source) {fs rs pops : List Nat}
     {fres : SearchResult α}
-    (hfwd : runVertexOriented c.fwd.inst source (some target) fs = .ok fres) :
+    (hfwd : runVertexOriented c.fwd.inst source (some target) fs = .ok fres)
+    (hrev : ∀ e, runVertexOriented (c.rev g).inst target (some source) rs = .error e →
+      e.stopsQuery = false) :
     (∃ r, singleVia c g sim term source target k fs rs pops = .ok r) ∨
     singleVia c g sim term source target k fs rs pops = .error .scheduleExhausted ∨
     singleVia c g sim term source target k fs rs pops = .error .badSchedule := by
   cases hres : singleVia c g sim term source target k fs rs pops with
   | ok r => exact Or.inl ⟨r, rfl⟩
   | error e =>
-    rcases single_via_failures hf hr hts hres with h | h | h | ⟨a, b, h⟩
+    rcases single_via_failures hf hr hts hres with h | ⟨h, hs⟩ | h | h | ⟨a, b, h⟩
     · rw [hfwd] at h; cases h
+    · rw [hrev e h] at hs; cases hs
     · exact Or.inr (Or.inl (by rw [h]))
     · exact Or.inr (Or.inr (by rw [h]))
     · obtain ⟨x, hx⟩ := hsim a b
